@@ -480,3 +480,83 @@ def stmts_in(body):
 
 def contains_call(node, pred):
     return any(isinstance(x, ast.Call) and pred(x) for x in walk_shallow(node))
+
+
+# ------------------------------------------------------------------ branch-edge dominators + tiny propositional check
+def dominating_edges(cfg, nid, skip_labels=("exc",)):
+    """Branch edges (test nid, cond expr, truth) that every path entry -> nid must take last before
+    reaching nid (edge dominators): removing the edge makes nid unreachable."""
+    out = []
+    for n in cfg.nodes:
+        if n.kind not in ("test",) and not (n.kind == "stmt" and isinstance(n.ast, ast.Assert)):
+            continue
+        for (s, label) in cfg.succ[n.id]:
+            if not (isinstance(label, tuple) and label[0] == "cond"):
+                continue
+            # reachability without this edge
+            seen = {cfg.entry}
+            todo = [cfg.entry]
+            while todo:
+                x = todo.pop()
+                for (m, l2) in cfg.succ[x]:
+                    if isinstance(l2, str) and l2 in skip_labels:
+                        continue
+                    if x == n.id and m == s and l2 is label:
+                        continue
+                    if m not in seen:
+                        seen.add(m)
+                        todo.append(m)
+            if nid not in seen:
+                out.append((n.id, label[1], label[2]))
+    return out
+
+
+def _bool_atoms(e, acc):
+    if isinstance(e, ast.BoolOp):
+        for v in e.values:
+            _bool_atoms(v, acc)
+    elif isinstance(e, ast.UnaryOp) and isinstance(e.op, ast.Not):
+        _bool_atoms(e.operand, acc)
+    else:
+        acc.add(U(e))
+
+
+def _bool_eval(e, val):
+    if isinstance(e, ast.BoolOp):
+        vs = [_bool_eval(v, val) for v in e.values]
+        return all(vs) if isinstance(e.op, ast.And) else any(vs)
+    if isinstance(e, ast.UnaryOp) and isinstance(e.op, ast.Not):
+        return not _bool_eval(e.operand, val)
+    return val[U(e)]
+
+
+def prop_satisfiable(conds, extra=()):
+    """Is the conjunction of (expr, truth) pairs satisfiable, treating maximal non-boolean
+    sub-expressions as independent propositional atoms?  (truth table, <= 16 atoms)"""
+    import itertools
+    atoms = set()
+    allc = list(conds) + list(extra)
+    for e, t in allc:
+        _bool_atoms(e, atoms)
+    atoms = sorted(atoms)
+    if len(atoms) > 16:
+        raise AnchorError("propositional check: too many atoms")
+    for bits in itertools.product([False, True], repeat=len(atoms)):
+        val = dict(zip(atoms, bits))
+        if all(_bool_eval(e, val) == t for e, t in allc):
+            return val
+    return None
+
+
+def stores_between(cfg, t_nid, n_nid, names):
+    """Is there a path t -> n (not re-passing t) through a node that stores one of ``names``?"""
+    from .core.facts import kills_and_gens
+    fw = cfg.reachable([s for s, l in cfg.succ[t_nid]], deleted={t_nid})
+    bw = cfg.reachable(n_nid, deleted={t_nid}, forward=False)
+    for x in fw & bw:
+        if x == n_nid:
+            continue
+        k, _ = kills_and_gens(cfg, x)
+        if k & set(names):
+            return x
+    return None
